@@ -458,7 +458,7 @@ where
             #[cfg(feature = "verif_hooks")]
             crate::verif::hit(crate::verif::Event::CuckooInsertSecond);
             self.n_elements += 1;
-            return Ok(false);
+            return Ok(true);
         }
         #[cfg(feature = "verif_hooks")]
         crate::verif::kick_begin();
